@@ -18,7 +18,7 @@ from mc.ref.dims import RDim, dim_of
 PROPERTY = "C05"
 
 import unyt
-from unyt import dimensions as udims
+from unyt import dimensions as udims, unyt_quantity
 from unyt._unit_lookup_table import default_unit_symbol_lut, inv_name_alternatives
 from unyt.exceptions import UnytError
 from unyt.unit_object import Unit, _get_unit_data_from_expr
@@ -277,6 +277,63 @@ def part_powers(ctx, shard):
     ctx.sample({"powers_of": shard[:3], "exponents": [str(e) for e in EXPS]})
 
 
+COEFF_BUILDS = {
+    "km*s/m": lambda U: (U("km") * U("s") / U("m")),
+    "km/m": lambda U: U("km") / U("m"),
+    "cm*km": lambda U: U("cm") * U("km"),
+    "hr*km/s": lambda U: U("hr") * U("km") / U("s"),
+    "mile/inch*g": lambda U: U("mile") / U("inch") * U("g"),
+    "3*m(string)": lambda U: U("3*m"),
+    "1000*s(string)": lambda U: U("1000*s"),
+}
+
+
+def part_coefficients(ctx, shard):
+    """units that carry a NUMERIC coefficient after simplify() (km*s/m -> 1000*s): powers, roots, products and a second
+    simplify stay inside the algebra - the scale is the scale of the unsimplified route, nothing escapes"""
+    world.reset_world()
+    U = lambda n: Unit(n)  # noqa: E731
+    for name in shard:
+        base = attempt(lambda: COEFF_BUILDS[name](U))
+        if base[0] != "ok":
+            continue
+        raw = base[1]
+        simp = attempt(lambda: COEFF_BUILDS[name](U).simplify())
+        if simp[0] != "ok":
+            ctx.violation(f"C05|law=coefficient|u={name}|op=simplify|mode=escaped-exception:{simp[1]}", {"part": "coeff", "u": name, "op": "simplify"}, None, None)
+            continue
+        u = simp[1]
+        s0, d0, _ = triple(raw)
+        for p in (Fraction(1, 2), Fraction(1, 3), Fraction(3, 2), 2, -1, Fraction(-1, 2), 0.5, 1.5):
+            for opname, f in (("pow", lambda: u**p), ("pow-simplify", lambda: (u**p).simplify()), ("pow-simplify-twice", lambda: (u**p).simplify().simplify()),
+                              ("pow-times-m", lambda: ((u**p) * Unit("m")).simplify()), ("pow-as_coeff_unit", lambda: (u**p).as_coeff_unit()),
+                              ("quantity-power", lambda: unyt_quantity(4.0, u) ** float(p)), ("quantity-power-times", lambda: (unyt_quantity(4.0, u) ** float(p)) * unyt_quantity(3.0, "m"))):
+                ctx.count("evaluations")
+                ctx.count("transitions")
+                r = attempt(f)
+                case = {"part": "coeff", "u": name, "p": str(p), "op": opname}
+                ctx.decided(("coeff", name, str(p), opname))
+                if r[0] != "ok":
+                    ctx.violation(f"C05|law=coefficient|u={name}|op={opname}|mode=escaped-exception:{r[1]}", case, "a unit", r[1])
+                    continue
+                w = r[1]
+                mfac = 1.0
+                if opname == "pow-as_coeff_unit":
+                    sc, dd = float(w[0]) * float(w[1].base_value), triple(w[1])[1]
+                elif opname.startswith("quantity"):
+                    # the product may move a factor between the number and the unit: judge the quantity as a whole
+                    sc, dd = float(w.d) * float(w.units.base_value), triple(w.units)[1]
+                    mfac = math.pow(4.0, float(p)) * (3.0 if "times" in opname else 1.0)
+                else:
+                    sc, dd, _ = triple(w)
+                wd = d0 ** want_pow(p)
+                if "times" in opname:
+                    wd = wd * triple(Unit("m"))[1]
+                want = math.pow(s0, float(p)) * mfac
+                if dd != wd or rel(float(sc), want) > 64 * EPS:
+                    ctx.violation(f"C05|law=coefficient|u={name}|op={opname}|mode=wrong-scale-or-dimension", case, (want, str(wd)), (float(sc), str(dd)))
+
+
 def part_triples(ctx, shard):
     """associativity and distributivity of powers over a small alphabet; simplify / as_coeff_unit."""
     world.reset_world()
@@ -484,6 +541,7 @@ def run(ctx):
     harness.pmap(ctx, part_pairs, [ALL_NAMES[i : i + 6] for i in range(0, len(ALL_NAMES), 6)])
     harness.pmap(ctx, part_powers, [ALL_NAMES[i : i + 6] for i in range(0, len(ALL_NAMES), 6)])
     harness.pmap(ctx, part_triples, [[n] for n in SMALL_NAMES])
+    harness.pmap(ctx, part_coefficients, [[n] for n in COEFF_BUILDS])
     cn = [n for n, _ in cross_units()]
     harness.pmap(ctx, part_cross, [cn[i : i + 3] for i in range(0, len(cn), 3)])
     part_equality(ctx, EQUAL_FAMILIES)
@@ -512,6 +570,8 @@ def replay(case):
         part_triples(ctx, [case["u"]])
     elif part == "cross":
         part_cross(ctx, [case["u"]])
+    elif part == "coeff":
+        part_coefficients(ctx, [case["u"]])
     else:
         part_equality(ctx, EQUAL_FAMILIES)
     return list(ctx.violations.items())
